@@ -130,12 +130,18 @@ for m in seeds:
     if m.get('expected') == 'detected':
         pairs += 1 + len(m.get('also_properties', []))
 
+jt = json.load(open('tables/justified.json'))
+jl = ['| rule | function | construct | reviewed reason |', '|---|---|---|---|']
+for e in jt:
+    jl.append('| %s | `%s` | `%s` | %s |' % (e['rule'], e['func'], e['construct'].replace('|', '\\|'), e['reason'].replace('|', '\\|')))
+JUSTIFIED = '\n'.join(jl)
+
 parts = []
 for f in sorted(glob.glob('doc/*.md')):
     parts.append(open(f).read().rstrip() + '\n')
 doc = '\n'.join(parts)
 for k, v in {'@@RULETABLE@@': RULETABLE, '@@SEEDTABLE@@': SEEDTABLE, '@@MISSES@@': MISSES, '@@FIXES@@': FIXES,
-             '@@FINDINGS@@': FINDINGS, '@@PERPROP@@': PERPROP, '@@NOWN@@': str(nown), '@@NREV@@': str(nrev),
+             '@@FINDINGS@@': FINDINGS, '@@JUSTIFIED@@': JUSTIFIED, '@@PERPROP@@': PERPROP, '@@NOWN@@': str(nown), '@@NREV@@': str(nrev),
              '@@NPAIRS@@': str(pairs), '@@NFIX@@': str(n), '@@NFIXED@@': str(len(fixed)), '@@NRULES@@': str(len(rules))}.items():
     doc = doc.replace(k, v)
 left = re.findall(r'@@[A-Z]+@@', doc)
